@@ -211,7 +211,7 @@ func short(s string) string {
 	return strings.ReplaceAll(s, modulePath+"/", "")
 }
 
-// fn looks up a function or method: fn("play", "Key.Apply"), fn("midix", "(*MIDIWriter).Note"), fn("op", "NewScale").
+// fn looks up a function or method: fn("play", "Key.Apply"), fn("midix", "MIDIWriter.Note"), fn("op", "NewScale").
 func (c *Ctx) fn(pkgrel, name string) *ssa.Function {
 	sp := c.ssapkg(pkgrel)
 	if sp == nil {
